@@ -175,6 +175,12 @@ func c17Churn(spec c17Spec, note func(string)) {
 	}
 	u := c.Users[0]
 	b.Deposit(c.Users[3], tok, sdkmath.NewInt(1_000_000), u.Hex(), u.Acc(), "")
+	tok2, err := w.AddModuleToken("USDC", "eth")
+	if err != nil {
+		note("setup failed: " + err.Error())
+		return
+	}
+	b.Deposit(c.Users[3], tok2, sdkmath.NewInt(1_000_000), u.Hex(), u.Acc(), "")
 	for step := 0; step < spec.Steps; step++ {
 		// drop k oracles at once
 		k := 2 + rng.IntN(3)
@@ -194,6 +200,9 @@ func c17Churn(spec c17Spec, note func(string)) {
 		c.Next()
 		b.SendToExternal(u, c.Users[1].Hex(), sdk.NewCoin(tok.Base, sdkmath.NewInt(int64(10+rng.IntN(50)))), sdk.NewCoin(tok.Base, sdkmath.NewInt(int64(1+rng.IntN(5)))))
 		b.RequestBatch(keep[0], tok.Denom["eth"], sdkmath.NewInt(1), sdkmath.ZeroInt(), c.Users[2].Hex())
+		// an outgoing bridge call that carries several tokens (their order is part of the signed checkpoint)
+		cr := b.BridgeCallMsg(u, u.Acc(), sdk.NewCoins(sdk.NewCoin(tok.Base, sdkmath.NewInt(int64(3+rng.IntN(9)))), sdk.NewCoin(tok2.Base, sdkmath.NewInt(int64(3+rng.IntN(9))))), c.Users[1].Hex(), []byte{1}, nil)
+		note(fmt.Sprintf("step %d: two-token bridge call: ok=%v %s", step, cr.OK(), short(cr.ErrString())))
 		c.Next()
 		// re-admit everybody, the dropped ones add delegate to come back online
 		r = b.SetOracleList(b.Oracles)
